@@ -2,6 +2,8 @@
 From Coq Require Import List Arith ZArith Bool Sorted.
 Import ListNotations.
 From PF Require Import Arr Net SweepDown Fill FillSpec.
+From PF Require Import GenLoopsEq.
+From PFG Require Import GenLoops.
 Open Scope Z_scope.
 
 (* for every network, every topological order sq of it, every outlet list and id vector:
@@ -71,3 +73,9 @@ Print Assumptions basin_outlets_roundtrip.
 Example basins_example :
   topo [0;0;1;3;3]%nat [0;3;1;4;2]%nat /\ basins [0;0;1;3;3]%nat [0;3]%nat [0;3;1;4;2]%nat [7;9] = [7;7;7;9;9].
 Proof. split; [apply check_topo_sound; vm_compute; reflexivity|vm_compute; reflexivity]. Qed.
+
+(* TIE BY TRANSLATION: core.fillnodata_upstream (the kernel behind basins) regenerated from the source IS the model *)
+Theorem gen_fillnodata_upstream_eq : forall ds sq data nodata, length data = length ds -> (forall i, In i sq -> valid ds i) ->
+  gen_fillnodata_upstream ds sq data nodata = fillnodata_upstream ds sq data nodata.
+Proof. exact GenLoopsEq.gen_fillnodata_upstream_eq. Qed.
+Print Assumptions gen_fillnodata_upstream_eq.
